@@ -77,6 +77,7 @@ struct Profile {
   bool legacy_psi{false};
   int unkillable_pct{20};
   int oomd_xattr_pct{0}; // pre-existing oomd_ooms / oomd_kill counters
+  bool glob_names{false}; // cgroups whose own name contains a glob metacharacter ("a*")
 };
 
 struct WorldGen {
@@ -200,6 +201,8 @@ struct WorldGen {
   void genChildren(const std::string& parent, int depth, int maxdepth, int& budget) {
     int n = depth == 0 ? R(1, 4) : R(1, 3);
     std::vector<std::string> names = vocab();
+    // a cgroup literally called "a*" next to "a", "a.b", "a-1": its name read as a pattern matches them
+    if (prof.glob_names && P(35)) names[1] = "a*";
     // deterministic rotation picked by the generator so that sibling sets vary
     int rot = R(0, (int)names.size() - 1);
     std::rotate(names.begin(), names.begin() + rot, names.end());
@@ -308,8 +311,13 @@ inline std::string genCgroupArg(const World& w, bool allowRoot = true) {
     int kind = W({45, 30, 10, allowRoot ? 7 : 0, 8, 4});
     std::string base = paths.empty() ? "a" : oneOf(paths);
     switch (kind) {
-      case 0: // literal path of the tree
+      case 0: // literal path of the tree (a metacharacter in a name is escaped to mean itself, mostly)
         pat = base;
+        if (pat.find('*') != std::string::npos && P(70)) {
+          std::string esc;
+          for (char ch : pat) esc += ch == '*' ? std::string("[*]") : std::string(1, ch);
+          pat = esc;
+        }
         break;
       case 1: { // replace one component by * or x*
         auto comps = std::vector<std::string>();
